@@ -71,6 +71,10 @@ type Store struct {
 	// OnMutation monitors run at the instant a mutation is applied, before the
 	// operation returns to the caller. data is the stored content for saves.
 	OnMutation []func(m Mutation, data []byte)
+	// AltRange, if set, names another offset of the same file from which a
+	// ranged read may be answered (a misdirected read inside one file, e.g.
+	// the neighbouring blob of the same stored length).
+	AltRange func(h backend.Handle, offset int64, length int, arg int) (int64, bool)
 	// OnArrive/OnLeave run when an operation reaches / leaves the store.
 	OnArrive []func(c *Client, op string, h backend.Handle)
 	OnLeave  []func(c *Client, op string, h backend.Handle)
@@ -449,16 +453,37 @@ func (c *Client) Load(ctx context.Context, h backend.Handle, length int, offset 
 	switch d.kind {
 	case "partial":
 		if len(buf) > 0 {
+			if (d.arg>>18)&1 == 1 {
+				// the stream ends early without a read error; the failure is
+				// reported only after the consumer returned (e.g. by Close)
+				c.fire("load-short-then-err")
+				if err := fn(bytes.NewReader(buf[:d.arg%len(buf)])); err != nil {
+					return err
+				}
+				return ErrTransient
+			}
 			c.fire("load-partial")
 			rd = &faultReader{rd: rd, left: d.arg % len(buf), fault: true}
 		}
 	case "corrupt":
 		if len(buf) > 0 {
 			c.fire("load-corrupt")
-			switch d.arg % 4 {
+			kind := d.arg % 5
+			if kind >= 3 && c.S.AltRange != nil && length > 0 && (d.arg>>8)%2 == 0 {
+				// misdirected read inside the same file
+				if off2, ok := c.S.AltRange(h, offset, length, d.arg>>9); ok && off2+int64(length) <= int64(len(f.Data)) {
+					rd = bytes.NewReader(append([]byte(nil), f.Data[off2:off2+int64(length)]...))
+					c.S.Sim.Count("fault:load-misdirected-range")
+					kind = -1
+				}
+			}
+			switch kind {
+			case -1:
 			case 0:
 				buf = buf[:d.arg%len(buf)]
 				rd = bytes.NewReader(buf)
+			case 4:
+				buf[d.arg%len(buf)] ^= byte(1 << (d.arg % 7))
 			case 3:
 				// stale / misdirected read: the bytes of another file of the same type (same range if possible)
 				if other := c.S.otherFile(h, d.arg); other != nil {
